@@ -394,19 +394,21 @@ def obligations(tier: str) -> List[dict]:
                         'kind': 'e2', 'fn': 'h_lex_line',
                         'fixed': {'triples': trip, 'maxlen': 2,
                                   'first': 'any'},
-                        'timeout': 200, 'bound': 'len(line) <= 2'})
+                        'timeout': 300, 'bound': 'len(line) <= 2',
+                        'need_marks': ['multi-token']})
             for cls in classes:
-                for n in (3, 4):
-                    if trip and n == 4:
-                        continue
-                    obs.append({
-                        'name': f'E2 lex line len={n} first={cls} '
-                                f'triples={trip}',
-                        'kind': 'e2', 'fn': 'h_lex_line',
-                        'fixed': {'triples': trip, 'maxlen': n,
-                                  'first': cls},
-                        'timeout': 2400 if n == 4 else 400,
-                        'bound': f'len(line) == {n}'})
+                obs.append({
+                    'name': f'E2 lex line len=3 first={cls} triples={trip}',
+                    'kind': 'e2', 'fn': 'h_lex_line',
+                    'fixed': {'triples': trip, 'maxlen': 3, 'first': cls},
+                    'timeout': 900, 'bound': 'len(line) == 3'})
+        for cls in ('hash', 'quote', 'lparen', 'rparen', 'slash', 'colon',
+                    'tilde', 'backslash'):
+            obs.append({
+                'name': f'E2 lex line len=4 first={cls} triples=False',
+                'kind': 'e2', 'fn': 'h_lex_line',
+                'fixed': {'triples': False, 'maxlen': 4, 'first': cls},
+                'timeout': 1800, 'bound': 'len(line) == 4'})
     return obs
 
 LEVEL_TEXT = ('Bounded model checking by symbolic execution plus unbounded '
